@@ -8,11 +8,11 @@ Lemma foreign_not_removable s : foreign s = true -> can_remove s = false.
 Proof. unfold foreign. destruct s as [t|]; [|discriminate]. destruct (can_remove (Some t)); cbn; congruence. Qed.
 
 Lemma rename_ok_None t : can_remove (Some t) = true -> rename_ok (Some t) None = true.
-Proof. destruct t as [c|es]; cbn; [discriminate|reflexivity]. Qed.
+Proof. destruct t as [c|es|]; cbn; [discriminate|reflexivity|discriminate]. Qed.
 
 Lemma rename_foreign_fails s o : foreign o = true -> rename_ok s o = false.
 Proof.
-  destruct o as [[c|[|e es]]|]; cbn; try discriminate; destruct s as [[c'|es']|]; try reflexivity.
+  destruct o as [[c|[|e es]|]|]; cbn; try discriminate; destruct s as [[c'|es'|]|]; try reflexivity.
 Qed.
 
 Definition fresh (opts : list N) : slot := Some (Dir [(n_default_opts, File opts)]).
@@ -79,10 +79,11 @@ Lemma name_eqb_refl l : name_eqb l l = true.
 Proof. induction l; cbn; rewrite ?N.eqb_refl; auto. Qed.
 Lemma tree_eqb_refl : forall t, tree_eqb t t = true.
 Proof.
-  fix IH 1. intros [c|es].
+  fix IH 1. intros [c|es|].
   - cbn. apply list_eqb_refl.
   - cbn. induction es as [|[n u] es IHes]; [reflexivity|].
     rewrite name_eqb_refl, (IH u), IHes. reflexivity.
+  - reflexivity.
 Qed.
 Lemma slot_eqb_refl s : slot_eqb s s = true.
 Proof. destruct s as [t|]; [apply tree_eqb_refl|reflexivity]. Qed.
@@ -169,3 +170,19 @@ Qed.
 (* the code as found: a foreign directory that took the name is removed by the failed run's cleanup *)
 Lemma live_legacy_removes_foreign : foreign (dir w_foreign) = true /\ live_run false w_foreign r0 <> w_foreign.
 Proof. split; [reflexivity|]. unfold live_run. cbn. discriminate. Qed.
+
+(* ---------- outside DIR and DIR.old ---------- *)
+(* the repaired remove_directory (lstat) never touches what a symbolic link inside a removable directory points to *)
+Theorem outside_untouched w ext : outside_after false w ext = ext.
+Proof. unfold outside_after, remove_effect. cbn [andb]. destruct (can_remove (dir w) && can_remove (old w)); [destruct (old w)|]; reflexivity. Qed.
+
+(* the code as found (stat): a previous data directory DIR.old that holds a link to a foreign directory is removed
+   when DIR is rotated - and the foreign directory is emptied through the link *)
+Definition link_world : world :=
+  {| dir := Some (Dir [(n_info, File magic8)]);
+     old := Some (Dir [(n_info, File magic8); ([108; 110], Link)]) |}.
+Definition ext_example : slot := Some (Dir [([102], File [112])]).      (* a foreign directory holding one file *)
+Theorem outside_legacy_refuted :
+  outside_after true link_world ext_example = Some (Dir []) /\
+  outside_after false link_world ext_example = ext_example.
+Proof. vm_compute. split; reflexivity. Qed.
